@@ -33,6 +33,12 @@ CLAIMS = {
  "C11": ("Structural clauses only: every field-held resource (pool allocation, epoll fd, both pipe ends, queue, thread) has a release of that field on the tp_destroy path; failing exits of tp_create / tpt_msg_queue_create / tpt_data_init release what they acquired; the self-join guard (EDEADLK) dominates every join/poll/release and a failed wait releases nothing; worker hooks bracket the loop exactly once; the virtual thread's start hook follows its successful init and its stop hook runs only if it was started; the shutdown latch is atomic. Termination / no late callback for every schedule is NOT decided.",
          "Trusts clang 14 CFG and the direct-call graph (function pointers are only user hooks/callbacks).",
          "static analysis: acquire/release pairing over the call graph, path enumeration of failing exits, guard dominance, race lint on life-cycle latch"),
+ "C12": ("Per memory access, for every input: relational abstract interpretation (linear inequalities over cursors, sizes and offsets; strides; trace partitioning) proves that each dereference, subscript and library copy related to a caller-supplied (pointer,size) pair, local array or constant table stays inside it; a bound that is present but too weak by a small constant is reported; what the domain cannot bound is listed as undecided and NOT claimed. Also loop progress, short-circuit evaluation order, banned unbounded C-string calls, recursion depth.",
+         "Trusts clang 14 CFG, the abstract interpreter (LP entailment accepted only with an exactly verified Farkas certificate), the tabled (pointer,size) pairs, libc contracts of memchr/memmem/memcpy; mathematical integers except where unsigned subtraction is explicit.",
+         "static analysis: relational abstract interpretation over the clang CFG (zones-like linear domain with congruences), custom lints"),
+ "C13": ("Same engine as C12 over the DNS, RADIUS, DHCPv4, HTTP, SDP, SAP, RTP and MPEG-TS parsers: per access proved / reported / undecided (listed, not claimed); loop progress; short-circuit order; compression-pointer walks bounded by a jump counter.",
+         "As C12; accesses whose capacity is a field of the packet itself are mostly outside the domain and listed as undecided/untracked.",
+         "static analysis: relational abstract interpretation over the clang CFG, custom lints"),
  "C16": ("Structural clauses only: every event registration call in threadpool_task.c pairs the timer event with the timer record and the I/O event with the I/O record; the read/write handler has a single non-cyclic user-callback site; in each transfer loop the transferred count, file offset and all buffer cursors advance by the same I/O result; partial totals are saved on every re-arm exit, folded in and cleared before the callback; re-arm only on CONTINUE; pre/post handler symmetry; stop removes both registrations, destroy stops before free; the immediate first transfer requires offset+transfer <= size. Byte-exact delivery and EOF/error/timeout reporting over schedules are NOT decided.",
          "Trusts clang 14 CFG; IO_BUF_* saturating macros not analysed.",
          "static analysis: call-site argument agreement table, loop-body update-set comparison, dominance, guard evaluation"),
